@@ -3,8 +3,8 @@
 # applies /var/tmp/mut6/<Nk>.out/patch<k>.diff to a scratch worktree, checks build + suite, runs the quick checks against it.
 N=$1; K=$2; shift; shift
 cd "$(dirname "$0")/.."
-P=/var/tmp/mut6/$N.out/patch$K.diff
-R=/var/tmp/mut6/$N.p$K.result
+P=${BENIGN_DIR:-/verif/benign}/$N/patch$K.diff
+R=${BENIGN_OUT:-/var/tmp}/$N.p$K.result
 WT=/var/tmp/benign.$N.$K
 export GOFLAGS=-mod=mod GOPROXY=off; unset GOSUMDB GOTOOLCHAIN
 git -C /repo worktree add -q --detach $WT HEAD || exit 2
